@@ -257,6 +257,8 @@ class Program:
             from .normalize import inline_new_helpers, desugar_match, propagate_new_constants, restore_parameter_names
             from .relocate import relocate_moved_definitions
             self.relocated = relocate_moved_definitions({m.name: m.tree for m in self.modules.values()})
+            from .relocate import reattach_static_aliases
+            self.relocated += reattach_static_aliases({m.name: m.tree for m in self.modules.values()})
             self.renamed_parameters = restore_parameter_names({m.name: m.tree for m in self.modules.values()})
             from .normalize import restore_local_names
             self.renamed_locals = restore_local_names({m.name: m.tree for m in self.modules.values()})
@@ -265,6 +267,8 @@ class Program:
             from .normalize import expand_table_spreads
             expand_table_spreads({m.name: m.tree for m in self.modules.values()})
             self.new_constants = propagate_new_constants({m.name: m.tree for m in self.modules.values()})
+            from .normalize import desugar_first_match
+            desugar_first_match({m.name: m.tree for m in self.modules.values()})
             desugar_match({m.name: m.tree for m in self.modules.values()})
             self.inlined, self.not_inlined = inline_new_helpers({m.name: m.tree for m in self.modules.values()})
             from .normalize import split_tuple_assignments, desugar_namedtuples, desugar_after_inlining
